@@ -32,9 +32,10 @@ TRUSTED_BASE = ["Coq 8.16.1 kernel (coqc), vm_compute only",
                 "ocaml/prelude.ml + ocaml/c26_driver.ml (parsing/printing of operations and results), harness/h_c26.cpp, vlib",
                 "g++ 12 -fsanitize=address,undefined; POSIX file semantics of the kernel (regular files in /tmp)"]
 ASSUMPTIONS = ["write/lseek/read on the two regular files never fail and never transfer fewer bytes than asked while data is available",
-               "sequence numbers and control values below 2^31 (off_t/int32 fields read back as unsigned in the model)"]
+               "message sequence numbers below 2^31 (the nearest loop does not terminate for last = 2^32-1); control values: the whole unsigned range"]
 RULE = ("random operation sequences of length <= 40 (put/get/control put/control get/last/nearest/range get with and without "
-        "abort/reopen) over sequence numbers 0..12 and payloads of 0..64 random bytes plus 8191/8192, on the real "
+        "abort/reopen) over sequence numbers 0..12, payloads of 0..64 random bytes plus 8191/8192, control values small or from "
+        "{8191, 8192, 8193, 65535, 65536, 2^31-1, 2^31, 2^32-1} (each also in a fixed case, read back across a reopen), on the real "
         "MemoryPersister (control record compared exactly), the real FilePersister without reopen and with close+reopen between operations; most sequences "
         "are control-first and search from >= 1 (inside the theorems' hypotheses), a fixed share exercises each listed "
         "finding and a malformed share (seq 0, duplicates, empty ranges, from > to). non-trivial = at least 3 accepted "
@@ -84,11 +85,21 @@ def payload(rng, big_ok=False):
     return bytes(rng.randrange(256) for _ in range(n))
 
 
+# control values: the API type is `unsigned`; both persisters must keep the whole range.  The file
+# persister packs target into the int32 _size field of an index record (>= 2^31 is negative there,
+# > 8192 is larger than any message size) and sender into the 64-bit _offset.
+CTL_BOUNDARY = (8191, 8192, 8193, 65535, 65536, 2**31 - 1, 2**31, 2**32 - 1)
+
+
+def ctl_val(rng):
+    return rng.choice(CTL_BOUNDARY) if rng.randrange(5) < 2 else rng.randrange(0, 40)
+
+
 def gen_ops(rng, kind, n, ctl_first, zero_ok, reopen, mem_ctl, big_ok):
     ops = []
     nctl = 0
     if ctl_first:
-        ops.append(("C", rng.randrange(1, 30), rng.randrange(1, 30)))
+        ops.append(("C", ctl_val(rng), ctl_val(rng)))
         nctl = 1
     lo = 0 if zero_ok else 1
     while len(ops) < n:
@@ -99,7 +110,7 @@ def gen_ops(rng, kind, n, ctl_first, zero_ok, reopen, mem_ctl, big_ok):
         elif r < 45:
             ops.append(("G", rng.randrange(0, 13)))
         elif r < 53:
-            ops.append(("C", rng.randrange(0, 40), rng.randrange(0, 40)))
+            ops.append(("C", ctl_val(rng), ctl_val(rng)))
             nctl += 1
         elif r < 60:
             ops.append(("c",))
@@ -140,6 +151,12 @@ def gen_cases(rng, tier):
             ops = gen_ops(rng, kind, n, ctl_first=False, zero_ok=True, reopen=reopen, mem_ctl=True, big_ok=False)
             cls = "wild"
         cs.append(mk(kind, ops, cls))
+    # every boundary control value as sender and as target, read back directly and across a reopen
+    for j, v in enumerate(CTL_BOUNDARY):
+        w = CTL_BOUNDARY[(j + 3) % len(CTL_BOUNDARY)]
+        cs.append(mk("M", [("C", v, w), ("c",), ("C", w, v), ("c",), ("P", 2, b"ab"), ("c",), ("L",)], "ctl-boundary"))
+        cs.append(mk("F", [("C", v, w), ("c",), ("O",), ("c",), ("P", 2, b"ab"), ("C", w, v), ("c",), ("O",), ("c",), ("G", 2), ("L",)],
+                     "ctl-boundary"))
     # boundary of the 8192-byte read buffer: 8192 is fine on both
     for kind in "MF":
         for n in (8191, 8192):
